@@ -8,7 +8,7 @@ TEXT = ("Compile side proved in Lean for all inputs: the wired first-match chain
         "short-circuit, scope keywords map one-to-one. Run-time side: an executable Lean model of the pinned runtime over the fixture universe "
         "(Model/Runtime.lean) runs the same script as the probe linked with the generated package; whole object graphs (constructor symbol, arguments in "
         "order, fields, call log, wither/decorator chains) must coincide, and the probe's graphs are also judged by an independent documentation-level "
-        "oracle. The runtime library itself is modelled, not verified.")
+        "oracle. The runtime library itself is modelled, not verified. Also proved: fields are assigned in sorted name order, calls keep order, names and wither flags, every call receives its declared arguments (fields_sorted_by_name, calls_order_preserved, call_args_preserved, service_parts), and over the emission model of the constructor template (Model/Emit.lean): creation, then fields, then calls, then tags/scope, then registration (emit_block_shape), every service — live or todo — is registered under its name (every_service_registered), a value service is a closure evaluated per construction, never a pre-built instance (value_is_evaluated_per_construction); the emission model is tied by re-parsing (go/ast) every generated constructor of the run.")
 TECHNIQUE = "Lean 4 theorems over the compiler model (order preservation, first-match classification) + executable runtime model vs compiled generated code (probe) on random/pairwise configurations"
 LEAN_PROPS = ["C02"]
 TRUSTED = ["gontainer-helpers/v3 (container, caller, setter, copier) is modelled by Model/Runtime.lean and tied by level B only",
@@ -34,7 +34,9 @@ def fixed_cases():
          "services": {
             "a": {"constructor": "fx.NewA", "arguments": [8080, "8080", "8080", 8080, True, "true", 1.5, "1.5", None, "<nil>", "nil"]},
             "b": {"constructor": "fx.NewB", "arguments": ["10", 10], "fields": {"F1": "true", "F2": True}, "calls": [["Call1", [3]], ["With1", ["3"], True], ["Call2", ["%pi%", "%ps%", "%pb%", "%pbs%"]]]},
-            "c": {"constructor": "fx.NewC", "arguments": ["%pn%", "%pns%", "%pf%", "%pfs%", 10, "10"]}},
+            "c": {"constructor": "fx.NewC", "arguments": ["%pn%", "%pns%", "%pf%", "%pfs%", 10, "10"]},
+            # numbers that are equal as numbers but differ in YAML type (int / float / exponent form)
+            "d": {"constructor": "fx.NewA", "arguments": [3, 3.0, 7.0, 7, 1000, 1e3, 0, 0.0], "fields": {"F1": 5.0, "F2": 5}, "calls": [["Call1", [2.0]], ["Call2", [2]]]}},
          "decorators": []},
         # a placeholder stays a placeholder when a later file re-opens the service without repeating `todo`
         {"meta": dict(fx), "services": {"t": {"todo": True, "constructor": "fx.NewA", "arguments": ["draft"], "tags": ["x"]},
@@ -46,7 +48,9 @@ def fixed_cases():
 
 def run(ctx, n=None):
     n = n or (40 if ctx.quick else 1500)
-    cfgs = fixed_cases() + [gen.gen_config(ctx.rng) for _ in range(n)]
+    # recorded finding D15: the float literal -0.0 is exported as `float64(-0)`, which Go evaluates to +0
+    negzero = {"meta": {"pkg": "gen", "imports": {"fx": gen.FX}}, "services": {"nz": {"constructor": "fx.NewA", "arguments": [-0.0]}}}
+    cfgs = fixed_cases() + [negzero] + [gen.gen_config(ctx.rng) for _ in range(n)]
     items = []
     for cfg in cfgs:
         ops = [["get", s] for s in cfg["services"]]
@@ -62,6 +66,14 @@ def run(ctx, n=None):
         dist["accepted"] += 1
         if rec["impl"] is None:
             violations.append({"sig": "probe-crash", "what": "probe produced no result: %r" % (rec.get("impl_crash"),), "files": rec["files"]})
+            continue
+        if cfg is negzero:
+            r0 = rec["impl"][0].get("ok", {})
+            a0 = (r0.get("args", {}).get("v") or [{}])[0]
+            if a0.get("k") == "float64" and a0.get("v") == "0":
+                violations.append({"sig": "D15:negative-zero-literal", "what": "the literal -0.0 is injected as +0 (generated code `float64(-0)` is the constant 0)", "files": rec["files"]})
+            elif not (a0.get("k") == "float64" and a0.get("v") == "-0"):
+                violations.append({"sig": "built-not-as-declared", "what": "literal -0.0 injected as %r" % (a0,), "files": rec["files"]})
             continue
         if rec.get("emit_diff") and len(corr_fail) < 10:
             corr_fail.append({"op": "emit", "files": rec["files"], "impl": rec["emit_diff"].get("impl"), "model": rec["emit_diff"].get("model"), "at": rec["emit_diff"].get("at")})
